@@ -187,9 +187,45 @@ def sem_part(tier, tag):
                     lines.append(ln)
         return lines
 
+    # scalar chains, exhaustively: every (A, B) of scalar types (literals, basic types and their unions) and every scalar leaf C:
+    # (A | B) against C.  The per-tag representation of scalars has the most special cases and the smallest universe.
+    def scalar(t):
+        return t.get("t") in ("lit", "prim") or (t.get("t") in ("union", "inter") and all(scalar(m) for m in t["ms"]))
+    sc = [i for i, t in enumerate(frag, 1) if scalar(t)]
+    leaves = [i for i in sc if frag[i - 1].get("t") in ("lit", "prim")]
+    triples = [(a, b, c) for a in sc for b in sc for c in leaves]
+    if tier == "quick":
+        triples = [t for k, t in enumerate(triples) if k % 3 == vlib.seed() % 3]
+
+    def chain_batch(k):
+        mine = triples[k::nsh]
+        ops, dump = [], set()
+        for j, (a, b, c) in enumerate(mine):
+            ops.append({"op": "union", "a": f"X{a}", "b": f"X{b}", "as": f"W{j}"})
+            ops += [{"op": "union", "a": f"W{j}", "b": f"X{c}", "as": f"U{j}"}, {"op": "intersect", "a": f"W{j}", "b": f"X{c}", "as": f"I{j}"},
+                    {"op": "diff", "a": f"W{j}", "b": f"X{c}", "as": f"D{j}"}, {"op": "complement", "a": f"W{j}", "as": f"C{j}"}]
+            dump |= {f"W{j}", f"X{c}", f"U{j}", f"I{j}", f"D{j}", f"C{j}"}
+        r = semlib.semtool({"id": 100 + k, "kind": "sem", "files": [["entry.ts", src]], "names": [f"X{i}" for i in range(1, n + 1)],
+                            "ops": ops, "dump": sorted(dump), "materialize": []}, timeout=900)
+        if r.get("outcome") != "ok":
+            raise ToolError(f"semtool failed on the C06 scalar chains: {str(r)[:400]}")
+        okof = {o["as"]: res["ok"] for o, res in zip(ops, r["results"])}
+        lines = [{"ev": "atoms", "atoms": r["atoms"]}]
+        for j, (a, b, c) in enumerate(mine):
+            if not okof.get(f"W{j}") or f"W{j}" not in r["dumps"] or f"X{c}" not in r["dumps"]:
+                continue
+            res = lambda nm: {"ok": bool(okof.get(nm)) and nm in r["dumps"], "st": r["dumps"].get(nm, {"all": [], "sub": []})}
+            lines.append({"ev": "pair", "ia": a, "ib": b, "ic": c, "der": "(A|B),C", "a": r["dumps"][f"W{j}"], "b": r["dumps"][f"X{c}"],
+                          "u": res(f"U{j}"), "i": res(f"I{j}"), "d": res(f"D{j}"), "c": res(f"C{j}")})
+        return lines
+
     import concurrent.futures as cf
     with cf.ThreadPoolExecutor(max_workers=nsh) as ex:
         traces = list(ex.map(batch, range(nsh)))
+    with cf.ThreadPoolExecutor(max_workers=nsh) as ex:
+        for k, extra in enumerate(ex.map(chain_batch, range(nsh))):
+            # same engine context numbering is per batch: chain lines get their own trace (own atom table)
+            traces.append(extra)
     cfgt = os.path.join(vlib.VERIF, "spec/trace/Trace_Simple.cfg")
     paths = []
     for k, tr in enumerate(traces):
@@ -206,7 +242,7 @@ def sem_part(tier, tag):
     violations, consumed, tstates, npairs = [], 0, 0, 0
     seen = set()
     with cf.ThreadPoolExecutor(max_workers=nsh) as ex:
-        for k, tr in enumerate(ex.map(one, range(nsh))):
+        for k, tr in enumerate(ex.map(one, range(len(traces)))):
             cons = vlib.tagged_lines(tr["lines"], "CONSUMED")
             if not cons or cons[0]["n"] != len(traces[k]):
                 raise ToolError(f"ops trace {k} not consumed: {cons}\n{tr['tail']}")
